@@ -134,7 +134,7 @@ theorem check_sound_rows_pinned [Inhabited α] (p : MapIn) (hc : p.check = none)
 
 /-! ### the (P)PI table against the certificate's slot list -/
 
-theorem pippi_ppiSlot (p : MapIn) (hout : ∀ q ∈ ppioS p.net, 0 < (sNodeAt p.net q).outs.length)
+theorem pippi_ppiSlot (p : MapIn)
     (px : Nat × Nat) (h : px ∈ (tabsOf p.net p.strip).pippi) : px.2 ∈ p.ppiSlots ∧ px.2 = p.ix.ppi + px.1 := by
   simp only [tabsOf, List.mem_map, List.mem_append] at h
   obtain ⟨q, hq, rfl⟩ := h
@@ -142,10 +142,10 @@ theorem pippi_ppiSlot (p : MapIn) (hout : ∀ q ∈ ppioS p.net, 0 < (sNodeAt p.
   · have := io_le_sNodes p.net
     rcases hq with hq | hq
     · have := ((mem_piS p.net q).1 hq).1; omega
-    · exact ((mem_ppioS p.net q).1 hq).2
+    · exact ((mem_ppiUsedS p.net q).1 hq).1.2
   · rcases hq with hq | hq
     · exact ((mem_piS p.net q).1 hq).2
-    · exact hout q hq
+    · exact ((mem_ppiUsedS p.net q).1 hq).2
 
 theorem ppiSlot_pippi (p : MapIn) (x : Nat) (h : x ∈ p.ppiSlots) :
     ∃ i, (i, x) ∈ (tabsOf p.net p.strip).pippi ∧ x = p.ix.ppi + i := by
@@ -155,13 +155,12 @@ theorem ppiSlot_pippi (p : MapIn) (x : Nat) (h : x ∈ p.ppiSlots) :
   refine ⟨i, ?_, rfl⟩
   by_cases hio : i < p.net.io.length
   · exact Or.inl ((mem_piS p.net i).2 ⟨hio, ho⟩)
-  · exact Or.inr ((mem_ppioS p.net i).2 ⟨by omega, hi⟩)
+  · exact Or.inr ((mem_ppiUsedS p.net i).2 ⟨⟨by omega, hi⟩, ho⟩)
 
 theorem zero_lt_ppi (p : MapIn) : p.ix.zero < p.ix.ppi := by simp [MapIn.ix, Net.idx]
 
 /-- after `s_to_c`, memory and signal environment agree on the constant slot and on every (P)PI slot -/
-theorem sToCM_agree {p : MapIn} (hg : Good p) (hpos : 0 < p.capsMin)
-    (hout : ∀ q ∈ ppioS p.net, 0 < (sNodeAt p.net q).outs.length) (d : α) (s0 : List α) (m : Int → α) (env : Nat → α)
+theorem sToCM_agree {p : MapIn} (hg : Good p) (hpos : 0 < p.capsMin) (d : α) (s0 : List α) (m : Int → α) (env : Nat → α)
     (hz : m (p.loc p.ix.zero) = env p.ix.zero) (x : Nat) (hx : x ∈ p.ppiSlots ∨ x = p.ix.zero) :
     sToCM p (tabsOf p.net p.strip) d s0 m (p.loc x) = sToC (tabsOf p.net p.strip) d s0 env x := by
   have hzl := zero_lt_ppi p
@@ -175,7 +174,7 @@ theorem sToCM_agree {p : MapIn} (hg : Good p) (hpos : 0 < p.capsMin)
     rw [foldl_updI_apply _ (fun px : Nat × Nat => p.loc px.2) (fun px => s0.getD px.1 d) (p.loc x) (s0.getD i d)]
     · rw [if_pos (List.mem_map.2 ⟨(i, x), hi, rfl⟩)]
     · intro px hpx hl
-      obtain ⟨hs, he⟩ := pippi_ppiSlot p hout px hpx
+      obtain ⟨hs, he⟩ := pippi_ppiSlot p px hpx
       have : px.2 = x := by
         apply Classical.byContradiction
         intro hne
@@ -185,14 +184,14 @@ theorem sToCM_agree {p : MapIn} (hg : Good p) (hpos : 0 < p.capsMin)
   · have hnm : p.ix.zero ∉ (tabsOf p.net p.strip).pippi.map (·.2) := by
       intro hm
       obtain ⟨px, hpx, he⟩ := List.mem_map.1 hm
-      have := (pippi_ppiSlot p hout px hpx).2
+      have := (pippi_ppiSlot p px hpx).2
       omega
     rw [if_neg hnm]
     rw [foldl_updI_apply _ (fun px : Nat × Nat => p.loc px.2) (fun px => s0.getD px.1 d) (p.loc p.ix.zero) (m (p.loc p.ix.zero))]
     · simp [hz]
     · intro px hpx hl
       exfalso
-      obtain ⟨hs, he⟩ := pippi_ppiSlot p hout px hpx
+      obtain ⟨hs, he⟩ := pippi_ppiSlot p px hpx
       exact pinned_loc_ne hg hpos (ppi_pinned p hs).2 (zero_pinned p).2 (ppi_pinned p hs).1 (zero_pinned p).1 (by omega) hl
 
 /-! ### one cycle and k cycles on memory -/
@@ -207,7 +206,7 @@ theorem mem_tracked_cases (p : MapIn) (x : Nat) (h : x ∈ p.tracked) :
   · exact Or.inr (Or.inr h)
 
 theorem cycle1M_eq [Inhabited α] (p : MapIn) (hc : p.check = none) (hpos : 0 < p.capsMin)
-    (hso : stateOutsB p.net = true) (hzc : zeroCapB p = true)
+    (hzc : zeroCapB p = true)
     (f : Nat → List α → α) (merge : α → α → α) (d : α) (m : Int → α) (env : Nat → α) (s : S α)
     (hz : m (p.loc p.ix.zero) = env p.ix.zero) :
     (cycle1M p f (tabsOf p.net p.strip) merge d ⟨m, s⟩).s =
@@ -215,17 +214,13 @@ theorem cycle1M_eq [Inhabited α] (p : MapIn) (hc : p.check = none) (hpos : 0 < 
     (cycle1M p f (tabsOf p.net p.strip) merge d ⟨m, s⟩).mem (p.loc p.ix.zero) =
       (cycle1 (fun op => f op.code) (p.ops.map (sigOp p)) (tabsOf p.net p.strip) merge d ⟨env, s⟩).env p.ix.zero := by
   have hg := good_of_check p hc
-  have hout : ∀ q ∈ ppioS p.net, 0 < (sNodeAt p.net q).outs.length := by
-    intro q hq
-    unfold stateOutsB at hso
-    simpa using List.all_eq_true.1 hso q hq
   have h0 : ∀ x ∈ p.tracked, (∀ o ∈ p.ops, o.out ≠ x) →
       sToCM p (tabsOf p.net p.strip) d s.s0 m (p.loc x) = sToC (tabsOf p.net p.strip) d s.s0 env x := by
     intro x hx hun
     rcases mem_tracked_cases p x hx with ⟨o, ho, he⟩ | h | h
     · exact absurd he (hun o ho)
-    · exact sToCM_agree hg hpos hout d s.s0 m env hz x (Or.inl h)
-    · exact sToCM_agree hg hpos hout d s.s0 m env hz x (Or.inr h)
+    · exact sToCM_agree hg hpos d s.s0 m env hz x (Or.inl h)
+    · exact sToCM_agree hg hpos d s.s0 m env hz x (Or.inr h)
   have hA := check_sound_rows p hc hpos f _ _ h0
   have hB := check_sound_rows_pinned p hc hpos f _ _ h0
   have hzero := hB p.ix.zero (zero_pinned p).2 (zero_pinned p).1
@@ -277,7 +272,7 @@ theorem cycle1M_eq [Inhabited α] (p : MapIn) (hc : p.check = none) (hpos : 0 < 
 
 /-- **`cycle(k)` on memory = `cycle(k)` on signals**, for every accepted map certificate -/
 theorem cycleKM_eq [Inhabited α] (p : MapIn) (hc : p.check = none) (hpos : 0 < p.capsMin)
-    (hso : stateOutsB p.net = true) (hzc : zeroCapB p = true)
+    (hzc : zeroCapB p = true)
     (f : Nat → List α → α) (merge : α → α → α) (d : α) :
     ∀ (k : Nat) (m : Int → α) (env : Nat → α) (s : S α), m (p.loc p.ix.zero) = env p.ix.zero →
       (cycleKM p f (tabsOf p.net p.strip) merge d k ⟨m, s⟩).s =
@@ -287,7 +282,7 @@ theorem cycleKM_eq [Inhabited α] (p : MapIn) (hc : p.check = none) (hpos : 0 < 
   | zero => intro m env s _; rfl
   | succ k ih =>
     intro m env s hz
-    obtain ⟨h1, h2⟩ := cycle1M_eq p hc hpos hso hzc f merge d m env s hz
+    obtain ⟨h1, h2⟩ := cycle1M_eq p hc hpos hzc f merge d m env s hz
     show (cycleKM p f _ merge d k (cycle1M p f _ merge d ⟨m, s⟩)).s =
       (cycleK _ _ _ merge d k (cycle1 _ _ _ merge d ⟨env, s⟩)).s
     have e1 : cycle1M p f (tabsOf p.net p.strip) merge d ⟨m, s⟩ =
